@@ -385,6 +385,8 @@ def run(ck, ix, tier):
                  "after converting a copy to the required input units the ndarray method is not looked up on that copy's magnitude (the unconverted data would be used)")
 
     raw_magnitude_rule(ck, ix)
+    no_conversion_rule(ck, ix)
+    bare_tolerance_rule(ck, ix)
     # ------------------------------------------------------------ (b) role agreement in hand-written implementations
     n_roles = 0
     for f in m.all_functions:
@@ -607,3 +609,55 @@ def raw_magnitude_rule(ck, ix):
             ck.check((role, p_) in RAW_MAGNITUDE_OK, "G-OWN", f"raw-magnitude|{q}|{p_}", f.loc(n), RAW_MAGNITUDE_OK.get((role, p_), ""),
                      f"`{norm(n)}` in {q} reads the magnitude of parameter `{p_}` without converting it to the units NumPy will assume for it (not one of the confirmed unit-free roles): a quantity in other units - or of another dimension - is accepted as a bare number")
     ck.floor("G-OWN", len(seen), 10, "raw magnitude reads of parameters in numpy_func implementations")
+
+
+
+def no_conversion_rule(ck, ix):
+    """NumpyQuantity.__to_if_needed / __ito_if_needed (input conversion of the set_units ndarray methods): the ONLY case
+    in which the quantity is used as it is, is a unitless quantity asked for radian; every other request converts (a
+    dimensionless quantity in percent or km/m asked for '' must be scaled).  Decided by facts: a `return self` /
+    fall-through without conversion executes only where `self.unitless` and `to_units == 'radian'` are both known."""
+    from .. import shape as _s
+    ci = ix.cls(NQ, "NumpyQuantity")
+    n = 0
+    for name, mi in ci.methods.items():
+        if "_if_needed" not in name or not isinstance(mi.node, ast.FunctionDef):
+            continue
+        fn = mi.node
+        par = fn.args.args[1].arg if len(fn.args.args) > 1 else "to_units"
+        unitless = lambda a_: _s.match("self.unitless", a_) is not None
+        radian = lambda a_, par=par: _s.match(f"{par} == 'radian'", a_) is not None or _s.match(f"'radian' == {par}", a_) is not None
+        skips = [r for r in _s.returns_of(fn) if norm(r.value) == "self"] + [r for r in walk_local(fn) if isinstance(r, ast.Return) and r.value is None]
+        for r in skips:
+            n += 1
+            ok = _s.holds_at(r, fn, unitless, True) and _s.holds_at(r, fn, radian, True)
+            ck.check(ok, "G-DOM", f"NumpyQuantity.{name.lstrip('_')}|unconverted-only-for-unitless-radian", mi.loc(r), "the quantity is left as it is only when it is unitless and radian is asked for",
+                     f"`{norm(r)}` leaves the quantity unconverted where `self.unitless and {par} == 'radian'` is not established: a dimensionless quantity in scaled units (percent, km/m) reaches the ndarray method unscaled (q.cumprod() computed from raw magnitudes)")
+        convs = [c for c in walk_local(fn) if isinstance(c, ast.Call) and isinstance(c.func, ast.Attribute) and c.func.attr in ("to", "ito") and norm(c.func.value) == "self"]
+        ck.check(bool(convs), "G-DOM", f"NumpyQuantity.{name.lstrip('_')}|converts-otherwise", mi.loc(), "every other request converts", f"{name} no longer converts the quantity to the requested units")
+    ck.floor("G-DOM", n, 1, "no-conversion exits of the *_if_needed helpers of NumpyQuantity")
+
+
+def bare_tolerance_rule(ck, ix):
+    """np.isclose / np.allclose(a, b, atol=...): both operands are expressed in the units of the FIRST one (`a`), so a
+    bare numeric `atol` has to be taken in the units of `a` as well - whatever wraps it as a quantity must use
+    `<argument 'a'>.units`."""
+    from .. import shape as _s
+    m = ix.module(NF)
+    fac = next((f for f in m.all_functions if f.name == "implement_close" and f.parent is None), None)
+    if fac is None:
+        raise AnalysisError("implement_close not found in numpy_func")
+    impls = [f for f in m.all_functions if f.parent is fac and isinstance(f.node, ast.FunctionDef)]
+    n = 0
+    for f in impls:
+        fn = f.node
+        for c in [c for c in walk_local(fn) if isinstance(c, ast.Call) and isinstance(c.func, ast.Attribute) and c.func.attr == "Quantity" and len(c.args) == 2]:
+            val, units = _s.rnorm(c.args[0], fn), _s.rnorm(c.args[1], fn)
+            if "atol" not in val:
+                continue
+            n += 1
+            ru = _s.resolve(c.args[1], fn)
+            ok = isinstance(ru, ast.Attribute) and ru.attr in ("units", "_units") and isinstance(ru.value, ast.Subscript) and isinstance(ru.value.slice, ast.Constant) and ru.value.slice.value == "a"
+            ck.check(ok, "G-PROV", "implement_close|bare-atol-in-units-of-a", f.loc(c), "a bare atol is taken in the units of `a`",
+                     f"`{norm(c)}` wraps the bare tolerance in `{units}`: both operands are converted to the units of `a`, so the tolerance must be in the units of `a` too (otherwise the verdict changes when `b` is re-expressed)")
+    ck.floor("G-PROV", n, 1, "wrapping of a bare atol in implement_close")
